@@ -540,12 +540,14 @@ class Gen:
         if self.habit_due is not None:
             s, self.habit_due = self.habit_due, None
             if s < len(w.pool) and cfg['habit'] in cfg['perturb']:
+                w.stats['bias.habit'] += 1
                 return {'k': 'perturb', 'name': cfg['habit'], 'slot': s,
                         'ax': rng.randrange(2), 'i': rng.randrange(12),
                         'dst': rng.randrange(8)}
         if self.reobserve is not None:
             s, self.reobserve = self.reobserve, None
             if s in self.last_obs and s < len(w.pool):
+                w.stats['bias.observe_mutate_observe'] += 1
                 return dict(self.last_obs[s])
         if self.after_fault is not None:
             s, self.after_fault = self.after_fault, None
@@ -555,6 +557,7 @@ class Gen:
                 else:
                     ev = self.ev_read(w)
                 ev['slot'] = s
+                w.stats['bias.look_after_fault'] += 1
                 return ev
         kw = dict(cfg['kinds'])
         if not w.readers:
